@@ -69,6 +69,22 @@ elab "len_intro_vec " hlen:ident L:ident hsq:ident hnn:ident a:ident b:ident c:i
     generalize $hb : $y = $b at *
     generalize $hc : $z = $c at *)))
 
+open Lean Elab Tactic Meta in
+/-- `fun_arg_intro f D hD`: find the first application `f X` of the local function `f` (e.g. the `sqrt` parameter) in the
+goal or a hypothesis and replace its argument `X` everywhere by a new variable `D`, keeping `hD : X = D`. -/
+elab "fun_arg_intro " f:ident D:ident hD:ident : tactic => withMainContext do
+  let g ← getMainGoal
+  let fe ← Term.elabTerm f none
+  let isApp (e : Expr) : Bool := !e.hasLooseBVars && e.isApp && e.appFn! == fe
+  let mut found : Option Expr := (← instantiateMVars (← g.getType)).find? isApp
+  if found.isNone then
+    for d in (← getLCtx) do
+      if found.isNone && !d.isImplementationDetail then
+        found := (← instantiateMVars d.type).find? isApp
+  let some e := found | throwError "fun_arg_intro: no application of the function found"
+  let x ← Term.exprToSyntax e.appArg!
+  evalTactic (← `(tactic| generalize $hD : $x = $D at *))
+
 variable {α : Type} [Field α] [LinearOrder α] [IsStrictOrderedRing α]
 
 theorem sabs_eq_abs (x : α) : sabs x = |x| := by
